@@ -6,6 +6,7 @@ func init() {
 	vxRegister("H11aQ", H11aQ)
 	vxRegister("H11aT", H11aT)
 	vxRegister("H11http", H11http)
+	vxRegister("H11pad", H11pad)
 	vxRegister("H11dash", H11dash)
 	vxRegister("H11tmpl", H11tmpl)
 }
@@ -41,6 +42,19 @@ func H11tmpl() {
 // H11dash: the known class - a digit-initial word keeps its trailing hyphen when cleaned ("3-)" -> "3-"),
 // and Normalize puts it at a line end where the second pass joins it with the next line.
 func H11dash() { h11a([]byte("ab cd\n3-)\nz"), "dash") }
+
+// H11pad: the input is indented so that its symbolic bytes straddle the read-buffer boundary; Normalize
+// drops the indentation, so the two passes see the bytes at different buffer positions.
+func H11pad() {
+	pad := 1014 + vxChoice(9)
+	in := make([]byte, 0, pad+40)
+	for i := 0; i < pad; i++ {
+		in = append(in, ' ')
+	}
+	in = append(in, vxBytes(2)...)
+	in = append(in, " tail of the line\nzz yy\n"...)
+	h11a(in, "pad")
+}
 
 // H11http: the known re-normalisation class (a cleaned token that contains "https").
 func H11http() { h11a(append([]byte("http://s"), vxBytes(1)...), "http") }
